@@ -2,7 +2,7 @@
   Net-level invariants of the EBLIF elaborator: what is joined stays joined (`Ext`) as long as no
   `.blackbox` strips the model, and the primitive steps that create the joins.
 -/
-import Spydr.Eblif.ModelElab
+import Spydr.Eblif.Spec
 
 namespace Spydr.Eblif
 
@@ -11,12 +11,6 @@ theorem bind_ok {ε α β : Type} {x : Except ε α} {f : α → Except ε β} {
   cases x with
   | error e => simp [bind, Except.bind] at h
   | ok a => exact ⟨a, rfl, h⟩
-
-/-- pin `p` sits on the wire that net bit `k` currently stands for -/
-def Joined (st : St) (p : Pin) (k : Key) : Prop := p ∈ st.pins (st.alias k)
-
-/-- the cable of bit `k` exists and is wide enough -/
-def Live (st : St) (k : Key) : Prop := (k.1, k.2.1) ∈ st.cables ∧ k.2.2 < st.width (k.1, k.2.1)
 
 structure Ext (st st' : St) : Prop where
   joined : ∀ p k, Joined st p k → Joined st' p k
